@@ -139,17 +139,19 @@ func (dec *Decoder) applyInverseTransforms(pixels []uint32) []uint32 {
 		out = make([]uint32, numPix)
 	}
 
+	// Ping-pong between the two buffers so that an inverse transform never reads
+	// from the buffer it writes to: the colour-indexing inverse with packed
+	// pixels expands each input word into several output pixels and would
+	// otherwise overwrite input it has not read yet.
 	for n := dec.nextTransform - 1; n >= 0; n-- {
 		t := &dec.transforms[n]
 		inverseTransform(t, 0, t.YSize, rows, out)
-		rows = out
+		rows, out = out, rows
 	}
 
-	if dec.nextTransform == 0 {
-		// No transforms: output is the original pixels.
-		return pixels
-	}
-	return out[:numPix]
+	// After the swap rows holds the most recent output (or the untouched
+	// input when there were no transforms).
+	return rows[:numPix]
 }
 
 // inverseTransform applies a single inverse transform to the pixel data.
